@@ -1,14 +1,20 @@
 //! Command-line driver of the simulator.
 //!
-//!   sim run    --layer <name> --config <n> --seed <n> --runs <n> [--secs <n>] [--scale <n>]
-//!              [--workers <n>] [--samples <n>] --out <partial.json>
-//!   sim replay <replay.json>
-//!   sim digest --layer <name> --config <n> --seed <n> --runs <n> [--workers <n>]
+//!   sim run      --layer <name> --config <n> --seed <n> --runs <n> [--secs <n>] [--scale <n>]
+//!                [--workers <n>] [--samples <n>] --out <partial.json>
+//!   sim replay   <replay.json>
+//!   sim digest   --layer <name> --config <n> --seed <n> --runs <n> [--workers <n>]
+//!   sim chunk    ... --from <a> --to <b>      (internal: one chunk of a batch, result on stdout)
+//!   sim minimise <replay.json> --out <file>   (internal: minimise in a fresh process)
+//!
+//! `run` and `digest` never execute code of the system under test themselves: every chunk of
+//! runs, every minimisation and every replay check happens in a fresh child process.
 //!
 //! Exit codes: 0 nothing found / 1 a violation was found (run: `FAILURE` lines, replay:
 //! `VIOLATION` line) / 2 harness error.
 
 use std::collections::BTreeMap;
+use std::io::Write;
 use std::time::Duration;
 use verif_sim::harness::{self, BatchCfg, Layer};
 use verif_sim::json::{self, obj, J};
@@ -55,6 +61,27 @@ trait LayerFn<R> {
     fn call<L: Layer>(self, layer: L) -> R;
 }
 
+fn cfg_from(m: &BTreeMap<String, String>) -> BatchCfg {
+    BatchCfg {
+        seed: num(m, "seed", 1),
+        config: num(m, "config", 0),
+        scale: num(m, "scale", 1) as u32,
+        runs: num(m, "runs", 1000),
+        time_budget: m.get("secs").map(|s| Duration::from_secs_f64(s.parse().expect("--secs"))),
+        workers: num(m, "workers", 16) as usize,
+        samples: num(m, "samples", 3) as usize,
+    }
+}
+
+/// Re-execute a replay file in a fresh process; true iff it reports `REPRODUCED`.
+fn fresh_replay_reproduces(path: &str) -> bool {
+    let exe = std::env::current_exe().expect("current_exe");
+    match std::process::Command::new(exe).args(["replay", path]).output() {
+        Ok(o) => String::from_utf8_lossy(&o.stdout).lines().any(|l| l.starts_with("REPRODUCED")),
+        Err(_) => false,
+    }
+}
+
 struct RunCmd {
     m: BTreeMap<String, String>,
 }
@@ -62,50 +89,106 @@ struct RunCmd {
 impl LayerFn<i32> for RunCmd {
     fn call<L: Layer>(self, layer: L) -> i32 {
         let m = &self.m;
-        let cfg = BatchCfg {
-            seed: num(m, "seed", 1),
-            config: num(m, "config", 0),
-            scale: num(m, "scale", 1) as u32,
-            runs: num(m, "runs", 1000),
-            time_budget: m.get("secs").map(|s| Duration::from_secs_f64(s.parse().expect("--secs"))),
-            workers: num(m, "workers", 16) as usize,
-            samples: num(m, "samples", 3) as usize,
-        };
+        let cfg = cfg_from(m);
         println!(
-            "SEED {} layer={} config={} build={} runs>={} workers={}",
+            "SEED {} layer={} config={} build={} runs>={} workers={} chunk={}",
             cfg.seed,
             layer.name(),
             cfg.config,
             harness::build_name(),
             cfg.runs,
-            cfg.workers
+            cfg.workers,
+            layer.chunk_runs()
         );
         let res = harness::run_batch(&layer, &cfg);
         let names = layer.counter_names();
+        let exe = std::env::current_exe().expect("current_exe");
         let mut failures = Vec::new();
         for f in &res.failures {
             let key = f.violation.key();
-            let orig_size = layer.case_size(&f.case);
-            let (min_case, v, digest) = harness::minimise(&layer, f.case.clone(), &key);
-            let path = harness::write_replay(&layer, &cfg, f.run, f.run_seed, &min_case, &v, digest, "");
+            // 1. does the failing case alone fail in a fresh process?
+            let orig = harness::write_replay(&layer, &cfg, f.run, f.run_seed, &f.case, &f.violation, 0, "orig");
+            let (path, stability) = if f.violation.class != "hang-or-crash" && fresh_replay_reproduces(&orig) {
+                // 2. minimise in a fresh process, and accept the result only if it replays
+                let min = orig.replace("-orig.json", ".json");
+                let _ = std::process::Command::new(&exe).args(["minimise", &orig, "--out", &min]).output();
+                if std::path::Path::new(&min).exists() && fresh_replay_reproduces(&min) {
+                    let _ = std::fs::remove_file(&orig);
+                    (min, "minimised case reproduces in a fresh process")
+                } else {
+                    (orig, "only the unminimised case reproduces in a fresh process (state leaks between executions of one process)")
+                }
+            } else {
+                // 3. the exact prefix of its process always reproduces
+                let _ = std::fs::remove_file(&orig);
+                let to = if f.violation.class == "hang-or-crash" { f.chunk_start + layer.chunk_runs() } else { f.run + 1 };
+                let p = harness::write_chunk_prefix_replay(&layer, &cfg, f.chunk_start, to, &f.violation);
+                if f.violation.class == "hang-or-crash" {
+                    (p, "the process executing this chunk died or hung: exact chunk replay")
+                } else {
+                    // minimise the prefix: which of the earlier runs are needed? (ddmin over the
+                    // run list, every candidate in a fresh process, the failing run always last)
+                    let mut runs: Vec<u64> = (f.chunk_start..=f.run).collect();
+                    let mut tests = 0;
+                    let mut size = (runs.len() - 1).max(1);
+                    while size >= 1 && tests < 400 && runs.len() > 1 {
+                        let mut i = 0;
+                        let mut progressed = false;
+                        while i + 1 < runs.len() && tests < 400 {
+                            let end = (i + size).min(runs.len() - 1);
+                            let mut cand: Vec<u64> = runs[..i].to_vec();
+                            cand.extend_from_slice(&runs[end..]);
+                            let tmp = harness::write_run_list_replay(&layer, &cfg, &cand, &f.violation, "-tmp");
+                            tests += 1;
+                            if fresh_replay_reproduces(&tmp) {
+                                runs = cand;
+                                progressed = true;
+                            } else {
+                                i = end;
+                            }
+                            let _ = std::fs::remove_file(&tmp);
+                        }
+                        if size == 1 && !progressed {
+                            break;
+                        }
+                        size = if size == 1 { 1 } else { size / 2 };
+                        if size == 1 && !progressed && runs.len() <= 2 {
+                            break;
+                        }
+                    }
+                    let listed = harness::write_run_list_replay(&layer, &cfg, &runs, &f.violation, "");
+                    if runs.len() < (f.run - f.chunk_start + 1) as usize && fresh_replay_reproduces(&listed) {
+                        let _ = std::fs::remove_file(&p);
+                        (listed, "needs earlier runs of its process (process-wide state in the system under test): minimised list of runs, replayed in order in one fresh process")
+                    } else {
+                        let _ = std::fs::remove_file(&listed);
+                        (p, "needs the earlier runs of its process (process-wide state in the system under test): exact prefix replay")
+                    }
+                }
+            };
             println!(
-                "FAILURE property={} key={} run={} replay={}",
+                "FAILURE property={} key={} run={} replay={} stability=\"{}\"",
                 layer.property(),
                 key,
                 f.run,
-                path
+                path,
+                stability
             );
+            let rj = std::fs::read_to_string(&path).ok().and_then(|s| json::parse(&s).ok());
+            let exp = rj.as_ref().and_then(|j| j.get("expected")).cloned().unwrap_or(f.violation.to_json());
             failures.push(obj(vec![
                 ("key", key.as_str().into()),
-                ("class", v.class.as_str().into()),
-                ("site", v.site.as_str().into()),
-                ("step", v.step.into()),
-                ("detail", v.detail.as_str().into()),
+                ("class", f.violation.class.as_str().into()),
+                ("site", f.violation.site.as_str().into()),
+                ("detail", exp.get("detail").and_then(J::as_str).unwrap_or(&f.violation.detail).into()),
                 ("run", f.run.into()),
                 ("replay", path.as_str().into()),
-                ("original_size", orig_size.into()),
-                ("minimised_size", layer.case_size(&min_case).into()),
-                ("minimised_case", layer.case_to_json(&min_case)),
+                ("stability", stability.into()),
+                ("original_size", layer.case_size(&f.case).into()),
+                (
+                    "replay_case",
+                    rj.as_ref().and_then(|j| j.get("case")).cloned().unwrap_or(J::Null),
+                ),
             ]));
         }
         let mut zero_probes = Vec::new();
@@ -144,6 +227,8 @@ impl LayerFn<i32> for RunCmd {
             ("scale", cfg.scale.into()),
             ("workers", cfg.workers.into()),
             ("runs", res.runs.into()),
+            ("chunks", res.chunks.into()),
+            ("chunk_runs", layer.chunk_runs().into()),
             ("steps", res.steps.into()),
             ("wall_s", J::Float(res.wall.as_secs_f64())),
             ("batch_digest", J::Str(format!("{:016x}", res.batch_digest))),
@@ -205,6 +290,66 @@ impl LayerFn<i32> for RunCmd {
     }
 }
 
+struct ChunkCmd {
+    m: BTreeMap<String, String>,
+}
+
+impl LayerFn<i32> for ChunkCmd {
+    fn call<L: Layer>(self, layer: L) -> i32 {
+        let cfg = cfg_from(&self.m);
+        let res = harness::run_chunk(&layer, &cfg, num(&self.m, "from", 0), num(&self.m, "to", 0));
+        let bytes = harness::encode_chunk(&layer, &res);
+        let mut out = std::io::stdout().lock();
+        out.write_all(&bytes).expect("write chunk result");
+        out.flush().ok();
+        0
+    }
+}
+
+struct MinimiseCmd {
+    j: J,
+    out: String,
+}
+
+impl LayerFn<i32> for MinimiseCmd {
+    fn call<L: Layer>(self, layer: L) -> i32 {
+        harness::install_panic_hook();
+        let case = match self.j.get("case").ok_or("no case".to_string()).and_then(|c| layer.case_from_json(c)) {
+            Ok(c) => c,
+            Err(e) => {
+                eprintln!("HARNESS-ERROR {e}");
+                return 2;
+            }
+        };
+        let key = self
+            .j
+            .get("expected")
+            .map(|e| {
+                format!(
+                    "{}@{}",
+                    e.get("class").and_then(J::as_str).unwrap_or(""),
+                    e.get("site").and_then(J::as_str).unwrap_or("")
+                )
+            })
+            .unwrap_or_default();
+        let mut scratch = harness::Stats::new(layer.counter_names().len());
+        match layer.execute(&case, &mut scratch).violation {
+            Some(v) if v.key() == key => {}
+            _ => {
+                eprintln!("the case does not fail with key {key} in this process");
+                return 1;
+            }
+        }
+        let (min_case, v, digest) = harness::minimise(&layer, case, &key);
+        let mut j = self.j.clone();
+        j.set("case", layer.case_to_json(&min_case));
+        j.set("expected", v.to_json());
+        j.set("log_digest", J::Str(format!("{digest:016x}")));
+        std::fs::write(&self.out, j.to_pretty()).expect("cannot write minimised replay");
+        0
+    }
+}
+
 struct ReplayCmd {
     j: J,
     path: String,
@@ -212,6 +357,69 @@ struct ReplayCmd {
 
 impl LayerFn<i32> for ReplayCmd {
     fn call<L: Layer>(self, layer: L) -> i32 {
+        if self.j.get("kind").and_then(J::as_str) == Some("run-list") {
+            let g = |k: &str| self.j.get(k).and_then(J::as_u64).unwrap_or(0);
+            let runs: Vec<u64> = self.j.get("runs").and_then(J::as_arr).map(|a| a.iter().filter_map(J::as_u64).collect()).unwrap_or_default();
+            let cfg = BatchCfg {
+                seed: g("seed"),
+                config: g("config"),
+                scale: g("scale").max(1) as u32,
+                runs: 0,
+                time_budget: None,
+                workers: 1,
+                samples: 0,
+            };
+            let want = self.j.get("expected").and_then(|e| e.get("key")).and_then(J::as_str).unwrap_or("").to_string();
+            let last = runs.last().copied();
+            let res = harness::run_list(&layer, &cfg, 0, runs.iter().copied());
+            return match res.failures.iter().find(|f| f.violation.key() == want && Some(f.run) == last) {
+                Some(f) => {
+                    println!("REPRODUCED key={} at run {} after runs {:?} in this process, detail={}", want, f.run, &runs[..runs.len() - 1], f.violation.detail);
+                    println!("VIOLATION property={} replay={}", layer.property(), self.path);
+                    1
+                }
+                None => {
+                    println!("NOT-REPRODUCED expected key={} at the last of runs {:?} (build {})", want, runs, harness::build_name());
+                    0
+                }
+            };
+        }
+        if self.j.get("kind").and_then(J::as_str) == Some("chunk-prefix") {
+            // exactly what the batch executed in one of its processes: runs from..to, in order
+            let g = |k: &str| self.j.get(k).and_then(J::as_u64).unwrap_or(0);
+            let cfg = BatchCfg {
+                seed: g("seed"),
+                config: g("config"),
+                scale: g("scale").max(1) as u32,
+                runs: g("to"),
+                time_budget: None,
+                workers: 1,
+                samples: 0,
+            };
+            let want = self.j.get("expected").and_then(|e| e.get("key")).and_then(J::as_str).unwrap_or("").to_string();
+            if want.starts_with("hang-or-crash") {
+                println!("re-executing runs {}..{} in this process; a crash or hang here is the reproduction", g("from"), g("to"));
+            }
+            let res = harness::run_chunk(&layer, &cfg, g("from"), g("to"));
+            return match res.failures.iter().find(|f| f.violation.key() == want) {
+                Some(f) => {
+                    println!(
+                        "REPRODUCED key={} at run {} after runs {}..{} in this process, detail={}",
+                        want,
+                        f.run,
+                        g("from"),
+                        f.run,
+                        f.violation.detail
+                    );
+                    println!("VIOLATION property={} replay={}", layer.property(), self.path);
+                    1
+                }
+                None => {
+                    println!("NOT-REPRODUCED expected key={} in runs {}..{} (build {})", want, g("from"), g("to"), harness::build_name());
+                    0
+                }
+            };
+        }
         match harness::replay(&layer, &self.j) {
             Err(e) => {
                 eprintln!("HARNESS-ERROR {e}");
@@ -220,13 +428,7 @@ impl LayerFn<i32> for ReplayCmd {
             Ok(r) => {
                 if r.reproduced {
                     let v = r.violation.unwrap();
-                    println!(
-                        "REPRODUCED key={} step={} digest_matches={} detail={}",
-                        v.key(),
-                        v.step,
-                        r.digest_matches,
-                        v.detail
-                    );
+                    println!("REPRODUCED key={} step={} detail={}", v.key(), v.step, v.detail);
                     println!("VIOLATION property={} replay={}", layer.property(), self.path);
                     1
                 } else {
@@ -261,15 +463,9 @@ struct DigestCmd {
 impl LayerFn<i32> for DigestCmd {
     fn call<L: Layer>(self, layer: L) -> i32 {
         let m = &self.m;
-        let cfg = BatchCfg {
-            seed: num(m, "seed", 1),
-            config: num(m, "config", 0),
-            scale: num(m, "scale", 1) as u32,
-            runs: num(m, "runs", 1000),
-            time_budget: None,
-            workers: num(m, "workers", 16) as usize,
-            samples: 0,
-        };
+        let mut cfg = cfg_from(m);
+        cfg.time_budget = None;
+        cfg.samples = 0;
         let res = harness::run_batch(&layer, &cfg);
         // counters are part of the fingerprint: they must not depend on the worker count either
         let mut d = verif_sim::rng::Digest::default();
@@ -278,6 +474,11 @@ impl LayerFn<i32> for DigestCmd {
         }
         d.word(res.stats.states.len() as u64);
         d.word(res.stats.distinct.len() as u64);
+        let mut keys: Vec<String> = res.failures.iter().map(|f| format!("{}:{}", f.violation.key(), f.run)).collect();
+        keys.sort();
+        for k in &keys {
+            d.str(k);
+        }
         println!(
             "DIGEST layer={} config={} seed={} runs={} build={} batch={:016x} stats={:016x} violating={}",
             layer.name(),
@@ -293,6 +494,22 @@ impl LayerFn<i32> for DigestCmd {
     }
 }
 
+fn read_json(path: &str) -> J {
+    let src = std::fs::read_to_string(path).unwrap_or_else(|e| {
+        eprintln!("HARNESS-ERROR cannot read {path}: {e}");
+        std::process::exit(2)
+    });
+    json::parse(&src).unwrap_or_else(|e| {
+        eprintln!("HARNESS-ERROR cannot parse {path}: {e}");
+        std::process::exit(2)
+    })
+}
+
+fn layer_of(j: &J) -> String {
+    let prop = j.get("property").and_then(J::as_str).unwrap_or("").to_lowercase();
+    format!("{}-{}", prop, j.get("layer").and_then(J::as_str).unwrap_or(""))
+}
+
 fn main() {
     let args: Vec<String> = std::env::args().skip(1).collect();
     if args.is_empty() {
@@ -305,23 +522,27 @@ fn main() {
             let layer = m.get("layer").cloned().unwrap_or_default();
             with_layer(&layer, RunCmd { m })
         }
+        "chunk" => {
+            let m = arg_map(&args[1..]);
+            let layer = m.get("layer").cloned().unwrap_or_default();
+            with_layer(&layer, ChunkCmd { m })
+        }
         "digest" => {
             let m = arg_map(&args[1..]);
             let layer = m.get("layer").cloned().unwrap_or_default();
             with_layer(&layer, DigestCmd { m })
         }
+        "minimise" => {
+            let path = args.get(1).cloned().unwrap_or_default();
+            let m = arg_map(&args[2..]);
+            let j = read_json(&path);
+            let layer = layer_of(&j);
+            with_layer(&layer, MinimiseCmd { j, out: m.get("out").cloned().unwrap_or_default() })
+        }
         "replay" => {
             let path = args.get(1).cloned().unwrap_or_default();
-            let src = std::fs::read_to_string(&path).unwrap_or_else(|e| {
-                eprintln!("HARNESS-ERROR cannot read {path}: {e}");
-                std::process::exit(2)
-            });
-            let j = json::parse(&src).unwrap_or_else(|e| {
-                eprintln!("HARNESS-ERROR cannot parse {path}: {e}");
-                std::process::exit(2)
-            });
-            let prop = j.get("property").and_then(J::as_str).unwrap_or("").to_lowercase();
-            let layer = format!("{}-{}", prop, j.get("layer").and_then(J::as_str).unwrap_or(""));
+            let j = read_json(&path);
+            let layer = layer_of(&j);
             with_layer(&layer, ReplayCmd { j, path })
         }
         other => {
